@@ -320,8 +320,10 @@ nni_id_alloc(nni_id_map *m, uint64_t *idp, void *val)
 	if (m->id_dyn_val == 0) {
 		if (m->id_random) {
 			// NB: The range is inclusive.
-			m->id_dyn_val = nni_random() %
-			        (m->id_max_val - m->id_min_val + 1) +
+			// (the span is 0 when the range covers all 64 bits)
+			uint64_t span = m->id_max_val - m->id_min_val + 1;
+			m->id_dyn_val = (span != 0 ? nni_random() % span
+			                           : nni_random()) +
 			    m->id_min_val;
 		} else {
 			m->id_dyn_val = m->id_min_val;
@@ -330,9 +332,12 @@ nni_id_alloc(nni_id_map *m, uint64_t *idp, void *val)
 
 	for (;;) {
 		id = m->id_dyn_val;
-		m->id_dyn_val++;
-		if (m->id_dyn_val > m->id_max_val) {
+		// Compare before incrementing: with a maximum of
+		// UINT64_MAX the increment itself would wrap to zero.
+		if (m->id_dyn_val >= m->id_max_val) {
 			m->id_dyn_val = m->id_min_val;
+		} else {
+			m->id_dyn_val++;
 		}
 
 		if (id_find(m, id) == (size_t) -1) {
